@@ -10,6 +10,7 @@ harness prints them sorted).
 -/
 import CtyModel.Lemmas.TyJsonRT
 import CtyModel.Lemmas.TyFnsTie
+import CtyModel.Lemmas.d07TyJson
 namespace CtyModel
 namespace C07
 open Ty
@@ -75,6 +76,41 @@ theorem typeJSON_roundtrip (norm : String → String) (t : Ty) (hw : wf t = true
 
 /-- … and capsule types are refused by the encoder rather than mis-encoded. -/
 theorem typeJSON_capsule_rejected (i : Nat) : toJson (.capsule i) = .err "capsule" := rfl
+
+/-- … at ANY depth: the encoder answers the ordinary error exactly for the types that hold a capsule
+type somewhere (inside collections, tuples, object attributes), succeeds on every other type, … -/
+theorem typeJSON_error_iff_capsule (t : Ty) : toJson t = .err "capsule" ↔ hasCapsule t = true :=
+  D07.toJson_err_iff t
+
+theorem typeJSON_ok_iff_no_capsule (t : Ty) : (∃ j, toJson t = .ok j) ↔ hasCapsule t = false :=
+  D07.toJson_ok_iff t
+
+/-- … and never panics, whatever the type. -/
+theorem typeJSON_encoder_never_panics (t : Ty) (w : String) : toJson t ≠ .panic w := D07.toJson_never_panics t w
+
+/-- The decoder never makes a capsule type up, whatever the token tree. -/
+theorem typeJSON_decoder_no_capsule (norm : String → String) (j : Json) (t : Ty) (h : ofJson norm j = .ok t) :
+    hasCapsule t = false := D07.ofJson_noCapsule norm j t h
+
+/-- **Decoder strictness**, as strict as the decoder is: EVERY type the decoder returns — from any token
+tree it accepts, including the spellings the encoder never emits (`null` for an empty attribute, element or
+optional list; duplicate, unsorted or non-normalised keys; repeated optional names) — is a type on which encoder and decoder are
+mutually inverse: it encodes, and its encoding decodes to the same type.  (`norm` = NFC; idempotence is
+the one law of it that is used, probed against the real library by the C05/C06 harness.) -/
+theorem typeJSON_decoded_reencodes (norm : String → String) (hn : ∀ s, norm (norm s) = norm s) (j : Json) (t : Ty)
+    (h : ofJson norm j = .ok t) : ∃ j', toJson t = .ok j' ∧ ofJson norm j' = .ok t :=
+  D07.ofJson_reencodes norm hn j t h
+
+/-- the lenient spellings are real: token trees that are not in the image of the encoder and decode to
+the same type as the canonical one; a capsule below a list and a tuple is refused -/
+example :
+    (match ofJson id (.arr [.str "object", .obj ["b", "a", "b"] [.str "bool", .str "string", .str "number"], .arr [.str "a", .str "a"]]) with
+      | .ok t => t.equals (.object ["a", "b"] [.string, .number] [true, false]) | _ => false) = true ∧
+    (match toJson (.object ["a", "b"] [.string, .number] [true, false]) with
+      | .ok (.arr [.str "object", .obj ["a", "b"] [.str "string", .str "number"], .arr [.str "a"]]) => true | _ => false) = true ∧
+    (match ofJson id (.arr [.str "tuple", .null]) with | .ok t => t.equals (.tuple []) | _ => false) = true ∧
+    (match ofJson id (.arr [.str "object", .null, .null]) with | .ok t => t.equals (.object [] [] []) | _ => false) = true ∧
+    (match toJson (.list (.tuple [.string, .capsule 3])) with | .err _ => true | _ => false) = true := by decide +kernel
 
 /-! ### The regenerated-model tie
 
